@@ -190,7 +190,7 @@ class Prog(object):
 
     def render(self):
         body = []
-        reg = lambda c: c.unresolvable and self.route != 'param_default'
+        reg = lambda c: c.unresolvable and self.route != 'param_default' and self.context != 'lambda_kwshadow'
         exprs = [c.expr("REG['%s']" % c.callee if reg(c) else self.callee_expr(c.callee),
                         self.va_name, self.vk_name, None if reg(c) else self.route) for c in self.calls]
         for i in range(self.decoys):
@@ -255,6 +255,13 @@ class Prog(object):
             body += taint_after
             taint_after = []
             body.append('return ' + res)
+        elif ctx == 'lambda_kwshadow':
+            # a keyword-only parameter of the lambda, spelled like the wrapper's own (known) parameter,
+            # is what the call really uses: the callee cannot be resolved statically
+            body.append('%s = (lambda *, fparam=other_: %s)()' % (res, e))
+            body += taint_after
+            taint_after = []
+            body.append('return ' + res)
         elif ctx == 'lambda':
             body.append('%s = (lambda: %s)()' % (res, e))
             body += taint_after
@@ -278,12 +285,12 @@ class Prog(object):
             body = body[:-1] + extra + body[-1:]
         for c in self.calls:
             c.nested = False
-        if ctx in ('nested_def', 'lambda', 'nested_decoy', 'lambda_decoy'):
+        if ctx in ('nested_def', 'lambda', 'nested_decoy', 'lambda_decoy', 'lambda_kwshadow'):
             self.calls[0].nested = True
 
         outer_src = param_list_src(self.outer)
         lines = ['import functools, contextlib', 'OWN_ARGS = ()', 'OWN_KWARGS = {}', 'OWN_FLAG = True',
-                 'def decoy(*a_, **k_):', '    return None']
+                 'def decoy(*a_, **k_):', '    return None', 'def other_():', '    return None']
         cal_defs = []
         for key, ps in self.callees.items():
             if self.route == 'method':
@@ -461,6 +468,9 @@ def gen_programs(rng, count, tainted=False, contexts=None, routes=None, valid_on
                     and (second_unresolvable or rng.random() < 0.25)):
                 cobj.unresolvable = True
             if p.route == 'param_default':
+                cobj.unresolvable = True
+            if p.route == 'parameter' and not tainted and rng.random() < 0.2:
+                p.context = 'lambda_kwshadow'
                 cobj.unresolvable = True
             p.calls.append(cobj)
         if not ok:
